@@ -103,3 +103,1102 @@ Corollary res_data_sticky_no_event cb g data len c :
   c_out_status (fst (connp_res_data cb g data len c)) = c_out_status c /\
   snd (connp_res_data cb g data len c) = c_out_status c.
 Proof. intros H. rewrite (res_data_sticky cb g data len c H). cbn. auto. Qed.
+
+(* ======================================================================
+   res_data_data_means_all and the invariant it needs.
+   HTP_STREAM_DATA is returned only when the whole chunk has been consumed, PROVIDED the two counted body states
+   are entered with something to count (rs_S: RES_BODY_CHUNKED_DATA with out_chunked_length > 0,
+   RES_BODY_IDENTITY_CL_KNOWN with out_body_data_left <> 0; without it both state functions return HTP_DATA
+   without consuming, in the C as in the model) and the caller's length is the length of its chunk (rs_chunk_ok).
+   rs_S holds initially (rs_S_new) and is preserved by every data call (res_data_keeps_S).
+   Shape: frame lemmas (rs_geo: nothing outside htp_response.c touches the response cursor geometry, state,
+   out_chunked_length, out_body_data_left, out_status), one lemma per state function (rs_okres), the loop, the
+   entry point.
+   ====================================================================== *)
+
+Definition rs_geo (c : connp) :=
+  (k_data (c_out c), k_len (c_out c), k_read (c_out c), c_out_state c, c_out_chunked_length c, c_out_body_data_left c,
+   c_out_status c).
+
+Ltac brk := repeat match goal with
+  | |- context [match ?x with _ => _ end] => destruct x eqn:?
+  | |- context [if ?b then _ else _] => destruct b eqn:?
+  end.
+
+Lemma geo_tx_put c i t : rs_geo (tx_put c i t) = rs_geo c.
+Proof. unfold tx_put. brk; reflexivity. Qed.
+Lemma geo_tx_upd c i f : rs_geo (tx_upd c i f) = rs_geo c.
+Proof. unfold tx_upd. brk; try apply geo_tx_put; reflexivity. Qed.
+Lemma geo_fault c : rs_geo (rs_fault c) = rs_geo c.
+Proof. reflexivity. Qed.
+Lemma geo_otx f c : rs_geo (rs_otx f c) = rs_geo c.
+Proof. unfold rs_otx. brk; try apply geo_tx_upd; reflexivity. Qed.
+Lemma geo_emit c e : rs_geo (emit c e) = rs_geo c.
+Proof. reflexivity. Qed.
+Lemma geo_bump c h : rs_geo (bump_hook c h) = rs_geo c.
+Proof. reflexivity. Qed.
+Lemma geo_destroy_inc c i : rs_geo (tx_destroy_incomplete c i) = rs_geo c.
+Proof. unfold tx_destroy_incomplete. brk; reflexivity. Qed.
+Lemma geo_destroy c i : rs_geo (tx_destroy c i) = rs_geo c.
+Proof. unfold tx_destroy. brk; try apply geo_destroy_inc; reflexivity. Qed.
+Lemma geo_run_hook_ex cb h i d l s c : rs_geo (snd (run_hook_ex cb h i d l s c)) = rs_geo c.
+Proof. unfold run_hook_ex. brk; cbn [snd]; rewrite ?geo_tx_upd, ?geo_destroy; reflexivity. Qed.
+
+Section Frame.
+Variable cb : cb_oracle.
+Variable g : cfg.
+
+Definition rs_nd (rc : st) : Prop := rc <> ST_DATA /\ rc <> ST_DATA_BUFFER.
+Ltac ndt := unfold rs_nd; split; discriminate.
+
+Lemma nd_run_hook_ex h i d l s c : rs_nd (fst (run_hook_ex cb h i d l s c)).
+Proof. unfold run_hook_ex. brk; cbn [fst]; ndt. Qed.
+Lemma geo_run_tx_hooks k h i d l c : rs_geo (run_tx_hooks k h i d l c) = rs_geo c.
+Proof. revert c. induction k; intros c; cbn [run_tx_hooks]; [reflexivity|]. rewrite IHk. reflexivity. Qed.
+
+(* a function on the out cursor that rs_keeps data / len / read *)
+Definition rs_keeps (f : cursor -> cursor) : Prop :=
+  forall k, k_data (f k) = k_data k /\ k_len (f k) = k_len k /\ k_read (f k) = k_read k.
+Lemma geo_set_out f c : rs_keeps f -> rs_geo (rs_set_out f c) = rs_geo c.
+Proof. intros H. unfold rs_geo, rs_set_out. cbn. destruct (H (c_out c)) as (-> & -> & ->). reflexivity. Qed.
+
+Lemma res_run_hook_body_data_fr i d n c :
+  rs_nd (fst (res_run_hook_body_data cb i d n c)) /\ rs_geo (snd (res_run_hook_body_data cb i d n c)) = rs_geo c.
+Proof.
+  unfold res_run_hook_body_data, run_data_hook. brk; cbn [fst snd]; try (split; [ndt|reflexivity]).
+  all: split; [apply nd_run_hook_ex | rewrite geo_run_hook_ex, geo_run_tx_hooks; reflexivity].
+Qed.
+
+Lemma process_body_fr i d n c :
+  rs_nd (fst (tx_res_process_body_data_ex cb i d n c)) /\ rs_geo (snd (tx_res_process_body_data_ex cb i d n c)) = rs_geo c.
+Proof.
+  unfold tx_res_process_body_data_ex.
+  destruct (_ =? _).
+  - match goal with |- context [res_run_hook_body_data cb ?a ?b ?x ?y] =>
+      pose proof (res_run_hook_body_data_fr a b x y) as [H1 H2]; destruct (res_run_hook_body_data cb a b x y) as [rc c1] end.
+    cbn [fst snd] in *. rewrite !geo_tx_upd in H2.
+    destruct rc; cbn [fst snd]; (split; [ndt | assumption]).
+  - cbn [fst snd]. split; [ndt | apply geo_tx_upd].
+Qed.
+
+Lemma receiver_send_fr l c :
+  rs_nd (fst (res_receiver_send_data cb l c)) /\ rs_geo (snd (res_receiver_send_data cb l c)) = rs_geo c.
+Proof.
+  unfold res_receiver_send_data, run_data_hook.
+  destruct (k_receiver_hook (c_out c)); [|split; [ndt|reflexivity]].
+  match goal with |- context [run_hook_ex cb ?a ?b ?x ?y ?z ?w] =>
+    pose proof (nd_run_hook_ex a b x y z w) as H1; pose proof (geo_run_hook_ex cb a b x y z w) as H2;
+    destruct (run_hook_ex cb a b x y z w) as [rc c1] end.
+  cbn [fst snd] in *.
+  assert (H3 : rs_geo c1 = rs_geo c).
+  { rewrite H2. brk; reflexivity. }
+  destruct rc; cbn [fst snd]; split; try assumption; try ndt.
+  all: try (rewrite geo_set_out; [assumption|]; intros k; cbn; auto).
+Qed.
+
+Lemma receiver_clear_fr c :
+  rs_nd (fst (res_receiver_finalize_clear cb c)) /\ rs_geo (snd (res_receiver_finalize_clear cb c)) = rs_geo c.
+Proof.
+  unfold res_receiver_finalize_clear. destruct (k_receiver_hook (c_out c)); [|split; [ndt|reflexivity]].
+  pose proof (receiver_send_fr true c) as [H1 H2]. destruct (res_receiver_send_data cb true c) as [rc c1].
+  cbn [fst snd] in *. split; [assumption|]. rewrite geo_set_out; [assumption|]. intros k; cbn; auto.
+Qed.
+
+Lemma receiver_set_fr h c :
+  rs_nd (fst (res_receiver_set cb h c)) /\ rs_geo (snd (res_receiver_set cb h c)) = rs_geo c.
+Proof.
+  unfold res_receiver_set. pose proof (receiver_clear_fr c) as [H1 H2].
+  destruct (res_receiver_finalize_clear cb c) as [rc c1]. cbn [fst snd] in *. split; [assumption|].
+  rewrite geo_set_out; [assumption|]. intros k; cbn; auto.
+Qed.
+
+Lemma tx_finalize_fr i c :
+  rs_nd (fst (tx_finalize cb g i c)) /\ rs_geo (snd (tx_finalize cb g i c)) = rs_geo c.
+Proof.
+  unfold tx_finalize. destruct (tx_slot c i); [|split; [ndt|reflexivity]].
+  destruct (negb _); [split; [ndt|reflexivity]|].
+  match goal with |- context [run_hook_ex cb ?a ?b ?x ?y ?z ?w] =>
+    pose proof (nd_run_hook_ex a b x y z w) as H1; pose proof (geo_run_hook_ex cb a b x y z w) as H2;
+    destruct (run_hook_ex cb a b x y z w) as [rc c1] end.
+  cbn [fst snd] in *.
+  destruct rc; try (split; assumption).
+  brk; cbn [fst snd]; (split; [ndt|]); rewrite ?geo_destroy; assumption.
+Qed.
+
+(* ---- request-side pieces reached from RES_IDLE: they never touch the response geometry ---- *)
+Lemma geo_req_run_hook_body_data d l c : rs_geo (snd (req_run_hook_body_data cb d l c)) = rs_geo c.
+Proof.
+  unfold req_run_hook_body_data, run_data_hook. brk; cbn [snd]; rewrite ?geo_run_hook_ex, ?geo_run_tx_hooks; reflexivity.
+Qed.
+Lemma geo_tx_req_process_body i d n c : rs_geo (snd (tx_req_process_body_data_ex cb i d n c)) = rs_geo c.
+Proof.
+  unfold tx_req_process_body_data_ex.
+  match goal with |- context [req_run_hook_body_data cb ?a ?b ?x] =>
+    pose proof (geo_req_run_hook_body_data a b x) as H; destruct (req_run_hook_body_data cb a b x) as [rc c1] end.
+  cbn [snd] in H. rewrite geo_tx_upd in H. destruct rc; cbn [snd]; assumption.
+Qed.
+Lemma geo_req_receiver_send l c : rs_geo (snd (req_receiver_send_data cb l c)) = rs_geo c.
+Proof.
+  unfold req_receiver_send_data, run_data_hook. destruct (k_receiver_hook (c_in c)); [|reflexivity].
+  match goal with |- context [run_hook_ex cb ?a ?b ?x ?y ?z ?w] =>
+    pose proof (geo_run_hook_ex cb a b x y z w) as H2; destruct (run_hook_ex cb a b x y z w) as [rc c1] end.
+  cbn [snd] in *.
+  assert (H3 : rs_geo c1 = rs_geo c) by (rewrite H2; brk; reflexivity).
+  destruct rc; cbn [snd]; assumption.
+Qed.
+Lemma geo_req_receiver_clear c : rs_geo (snd (req_receiver_finalize_clear cb c)) = rs_geo c.
+Proof.
+  unfold req_receiver_finalize_clear. destruct (k_receiver_hook (c_in c)); [|reflexivity].
+  pose proof (geo_req_receiver_send true c) as H. destruct (req_receiver_send_data cb true c) as [rc c1]. cbn [snd] in *. assumption.
+Qed.
+Lemma geo_req_complete_partial i c : rs_geo (snd (tx_state_request_complete_partial cb i c)) = rs_geo c.
+Proof.
+  unfold tx_state_request_complete_partial, run_hook.
+  assert (H0 : forall x, rs_geo (snd (if tx_req_has_body (tx_get c i) then tx_req_process_body_data_ex cb i None 0 c else (ST_OK, x))) =
+                         rs_geo (if tx_req_has_body (tx_get c i) then c else x)).
+  { intros x. destruct (tx_req_has_body _); [apply geo_tx_req_process_body | reflexivity]. }
+  specialize (H0 c). destruct (if tx_req_has_body (tx_get c i) then _ else _) as [rc c1]. cbn [snd] in H0.
+  assert (H1 : rs_geo c1 = rs_geo c) by (rewrite H0; destruct (tx_req_has_body _); reflexivity).
+  destruct rc; cbn [snd]; try assumption.
+  match goal with |- context [run_hook_ex cb ?a ?b ?x ?y ?z ?w] =>
+    pose proof (geo_run_hook_ex cb a b x y z w) as H2; destruct (run_hook_ex cb a b x y z w) as [rc2 c2] end.
+  cbn [snd] in H2. rewrite geo_tx_upd in H2.
+  destruct rc2; cbn [snd]; try congruence.
+  rewrite geo_req_receiver_clear. congruence.
+Qed.
+Lemma geo_req_complete i c : rs_geo (snd (tx_state_request_complete cb g i c)) = rs_geo c.
+Proof.
+  unfold tx_state_request_complete. destruct (tx_slot c i); [|reflexivity].
+  assert (H0 : rs_geo (snd (if negb (t_request_progress t =? c_HTP_REQUEST_COMPLETE) then tx_state_request_complete_partial cb i c else (ST_OK, c))) = rs_geo c).
+  { destruct (negb _); [apply geo_req_complete_partial | reflexivity]. }
+  destruct (if negb _ then _ else _) as [rc c1]. cbn [snd] in H0.
+  destruct rc; cbn [snd]; try assumption.
+  match goal with |- context [tx_finalize cb g i ?x] =>
+    pose proof (tx_finalize_fr i x) as [_ H2]; destruct (tx_finalize cb g i x) as [rc2 c2] end.
+  cbn [snd] in *. transitivity (rs_geo c2); [reflexivity|]. rewrite H2. brk; cbn; assumption.
+Qed.
+Lemma geo_tx_create c : rs_geo (snd (connp_tx_create g c)) = rs_geo c.
+Proof. unfold connp_tx_create. brk; reflexivity. Qed.
+
+(* ---- response-side transaction state functions ---- *)
+Lemma response_line_fr i c :
+  rs_nd (fst (tx_state_response_line cb i c)) /\ rs_geo (snd (tx_state_response_line cb i c)) = rs_geo c.
+Proof.
+  unfold tx_state_response_line, run_hook. split; [apply nd_run_hook_ex|]. rewrite geo_run_hook_ex, geo_tx_upd. reflexivity.
+Qed.
+Lemma response_headers_fr i c :
+  rs_nd (fst (tx_state_response_headers cb i c)) /\ rs_geo (snd (tx_state_response_headers cb i c)) = rs_geo c.
+Proof.
+  unfold tx_state_response_headers, run_hook.
+  match goal with |- context [res_receiver_finalize_clear cb ?x] =>
+    pose proof (receiver_clear_fr x) as [H1 H2]; destruct (res_receiver_finalize_clear cb x) as [rc c1] end.
+  cbn [fst snd] in *. rewrite geo_tx_upd in H2.
+  destruct rc; try (split; assumption).
+  split; [apply nd_run_hook_ex|]. rewrite geo_run_hook_ex. assumption.
+Qed.
+End Frame.
+
+Definition rs_gD (c : connp) := (k_data (c_out c), k_len (c_out c)).
+Definition rs_gS (c : connp) := (c_out_state c, c_out_chunked_length c, c_out_body_data_left c).
+Definition rs_rdo (c : connp) := k_read (c_out c).
+Definition rs_D (c : connp) : Prop :=
+  match k_data (c_out c) with Some d => (k_len (c_out c) <= length d)%nat | None => k_len (c_out c) = 0%nat end.
+Definition rs_S (c : connp) : Prop :=
+  (c_out_state c = RES_BODY_CHUNKED_DATA -> 0 < c_out_chunked_length c) /\
+  (c_out_state c = RES_BODY_IDENTITY_CL_KNOWN -> c_out_body_data_left c <> 0).
+Definition rs_consumed_all (c : connp) : Prop := (k_len (c_out c) <= k_read (c_out c))%nat.
+
+Lemma geo_proj a b : rs_geo a = rs_geo b -> rs_gD a = rs_gD b /\ rs_gS a = rs_gS b /\ rs_rdo a = rs_rdo b.
+Proof. unfold rs_geo, rs_gD, rs_gS, rs_rdo. intros H. inversion H. repeat split; congruence. Qed.
+Lemma D_of_gD a b : rs_gD a = rs_gD b -> rs_D b -> rs_D a.
+Proof. unfold rs_gD, rs_D. intros H. inversion H as [[H1 H2]]. rewrite H1, H2. auto. Qed.
+Lemma S_of_gS a b : rs_gS a = rs_gS b -> rs_S b -> rs_S a.
+Proof. unfold rs_gS, rs_S. intros H. inversion H as [[H1 H2 H3]]. rewrite H1, H2, H3. auto. Qed.
+Lemma all_of a b : rs_gD a = rs_gD b -> rs_rdo a = rs_rdo b -> rs_consumed_all b -> rs_consumed_all a.
+Proof. unfold rs_gD, rs_rdo, rs_consumed_all. intros H H0. inversion H. congruence. Qed.
+
+(* rs_S after a state assignment to a state that carries no side condition *)
+Definition rs_plain_state (s : res_state) : Prop := s <> RES_BODY_CHUNKED_DATA /\ s <> RES_BODY_IDENTITY_CL_KNOWN.
+Lemma S_set_plain s c : rs_plain_state s -> rs_S (rs_set_state s c).
+Proof. intros [H1 H2]. unfold rs_S, rs_set_state. cbn. split; intros; congruence. Qed.
+Ltac plain := unfold rs_plain_state; split; discriminate.
+Ltac split4 := split; [|split; [|split]].
+Ltac fr := first [assumption | congruence | (unfold rs_gD, rs_rdo, rs_gS in *; cbn in *; congruence)].
+Ltac same_S := intros; eapply S_of_gS; [|eassumption]; fr.
+
+Section Ops.
+Variable cb : cb_oracle.
+Variable g : cfg.
+
+Lemma has_byte_false c : rs_has_byte c = false -> rs_consumed_all c.
+Proof. unfold rs_has_byte, rs_consumed_all. intros H. apply Nat.ltb_ge in H. exact H. Qed.
+
+Lemma geo_load_next_but_read c : rs_gD (rs_load_next c) = rs_gD c /\ rs_gS (rs_load_next c) = rs_gS c /\ rs_rdo (rs_load_next c) = rs_rdo c.
+Proof. unfold rs_load_next. brk; repeat split; reflexivity. Qed.
+
+Lemma load_next_some c : rs_D c -> rs_has_byte c = true -> rs_nb (rs_load_next c) <> None.
+Proof.
+  unfold rs_D, rs_has_byte, rs_load_next, rs_cur_byte, rs_nb. intros HD Hb.
+  destruct (k_data (c_out c)) as [d|] eqn:Ed.
+  - rewrite Hb. destruct (nth_error d (k_read (c_out c))) eqn:En; cbn; [discriminate|].
+    apply nth_error_None in En. apply Nat.ltb_lt in Hb. lia.
+  - apply Nat.ltb_lt in Hb. lia.
+Qed.
+
+Lemma peek_fr c : rs_gD (rs_peek_next c) = rs_gD c /\ rs_gS (rs_peek_next c) = rs_gS c /\ rs_rdo (rs_peek_next c) = rs_rdo c.
+Proof. unfold rs_peek_next. destruct (rs_has_byte c); [apply geo_load_next_but_read | repeat split; reflexivity]. Qed.
+Lemma peek_none c : rs_D c -> rs_nb (rs_peek_next c) = None -> rs_consumed_all (rs_peek_next c).
+Proof.
+  intros HD H. destruct (peek_fr c) as (E1 & _ & E3). eapply all_of; eauto.
+  unfold rs_peek_next in H. destruct (rs_has_byte c) eqn:Hb; [|apply has_byte_false; assumption].
+  exfalso. eapply load_next_some; eauto.
+Qed.
+
+Lemma copy_some c c1 : rs_copy_byte c = Some c1 -> rs_gD c1 = rs_gD c /\ rs_gS c1 = rs_gS c.
+Proof.
+  unfold rs_copy_byte. destruct (rs_has_byte c); [|discriminate]. intros H; inversion H; subst c1.
+  destruct (geo_load_next_but_read c) as (E1 & E2 & _). split; [rewrite <- E1|rewrite <- E2]; reflexivity.
+Qed.
+Lemma copy_none c : rs_copy_byte c = None -> rs_consumed_all c.
+Proof. unfold rs_copy_byte. destruct (rs_has_byte c) eqn:H; [discriminate|]. intros _. apply has_byte_false; assumption. Qed.
+Lemma next_some c c1 : rs_next_byte c = Some c1 -> rs_gD c1 = rs_gD c /\ rs_gS c1 = rs_gS c.
+Proof.
+  unfold rs_next_byte. destruct (rs_has_byte c); [|discriminate]. intros H; inversion H; subst c1.
+  destruct (geo_load_next_but_read c) as (E1 & E2 & _). split; [rewrite <- E1|rewrite <- E2]; reflexivity.
+Qed.
+Lemma next_none c : rs_next_byte c = None -> rs_consumed_all c.
+Proof. unfold rs_next_byte. destruct (rs_has_byte c) eqn:H; [discriminate|]. intros _. apply has_byte_false; assumption. Qed.
+
+Lemma geo_res_buffer c : rs_geo (snd (rs_res_buffer g c)) = rs_geo c.
+Proof. unfold rs_res_buffer. brk; cbn [snd]; reflexivity. Qed.
+Lemma geo_consolidate c : rs_geo (snd (rs_consolidate g c)) = rs_geo c.
+Proof.
+  unfold rs_consolidate. destruct (k_buf (c_out c)).
+  - pose proof (geo_res_buffer c) as H. destruct (rs_res_buffer g c) as [rc c1]. destruct rc; cbn [snd] in *; assumption.
+  - brk; cbn [snd]; reflexivity.
+Qed.
+Lemma geo_clear_buffer c : rs_geo (rs_clear_buffer c) = rs_geo c.
+Proof. reflexivity. Qed.
+Lemma set_state_fr s c : rs_gD (rs_set_state s c) = rs_gD c /\ rs_rdo (rs_set_state s c) = rs_rdo c.
+Proof. split; reflexivity. Qed.
+Lemma advance_fr n c : rs_gD (rs_advance n c) = rs_gD c /\ rs_gS (rs_advance n c) = rs_gS c.
+Proof. split; reflexivity. Qed.
+
+Lemma process_body_fr2 d n c :
+  rs_nd (fst (rs_process_body cb d n c)) /\ rs_geo (snd (rs_process_body cb d n c)) = rs_geo c.
+Proof. unfold rs_process_body. destruct (c_out_tx c); [apply process_body_fr | split; [split; discriminate | reflexivity]]. Qed.
+Lemma response_headers_fr2 c :
+  rs_nd (fst (rs_response_headers cb c)) /\ rs_geo (snd (rs_response_headers cb c)) = rs_geo c.
+Proof. unfold rs_response_headers. destruct (c_out_tx c); [apply response_headers_fr | split; [split; discriminate | reflexivity]]. Qed.
+Lemma body_slice_fr c n : rs_geo (snd (rs_body_slice c n)) = rs_geo c.
+Proof. unfold rs_body_slice. brk; reflexivity. Qed.
+
+Lemma state_tx_upd c i f : c_out_state (tx_upd c i f) = c_out_state c.
+Proof. pose proof (geo_tx_upd c i f) as H. unfold rs_geo in H. inversion H. reflexivity. Qed.
+
+(* htp_tx_state_response_start: new state LINE or STREAM_CLOSE, or nothing changed *)
+Lemma response_start_fr i c :
+  let r := tx_state_response_start cb i c in
+  rs_nd (fst r) /\ rs_gD (snd r) = rs_gD c /\ rs_rdo (snd r) = rs_rdo c /\ (rs_S c -> rs_S (snd r)).
+Proof.
+  cbn zeta. unfold tx_state_response_start, run_hook.
+  match goal with |- context [run_hook_ex cb ?a ?b ?x ?y ?z ?w] =>
+    pose proof (nd_run_hook_ex cb a b x y z w) as H1; pose proof (geo_run_hook_ex cb a b x y z w) as H2;
+    destruct (run_hook_ex cb a b x y z w) as [rc c1] end.
+  cbn [fst snd] in *. apply geo_proj in H2. destruct H2 as (E1 & E2 & E3).
+  assert (E1' : rs_gD c1 = rs_gD c) by (rewrite E1; reflexivity).
+  assert (E3' : rs_rdo c1 = rs_rdo c) by (rewrite E3; reflexivity).
+  assert (E2' : rs_gS c1 = rs_gS c) by (rewrite E2; reflexivity).
+  destruct rc; cbn [fst snd]; try (split4; [assumption|assumption|assumption|same_S]).
+  destruct (t_is_protocol_0_9 _); cbn [fst snd].
+  - match goal with |- context [tx_upd c1 i ?f] => pose proof (geo_tx_upd c1 i f) as H; apply geo_proj in H; destruct H as (F1 & F2 & F3) end.
+    split4.
+    + split; discriminate.
+    + unfold rs_gD in *; cbn in *; congruence.
+    + unfold rs_rdo in *; cbn in *; congruence.
+    + intros _. unfold rs_S. cbn. split; intros; discriminate.
+  - match goal with |- context [tx_upd ?x i ?f] => pose proof (geo_tx_upd x i f) as H; apply geo_proj in H; destruct H as (F1 & F2 & F3) end.
+    split4.
+    + split; discriminate.
+    + rewrite F1. unfold rs_gD in *; cbn in *; congruence.
+    + rewrite F3. unfold rs_rdo in *; cbn in *; congruence.
+    + intros _. unfold rs_S. rewrite state_tx_upd. cbn. split; intros; discriminate.
+Qed.
+
+(* htp_tx_state_response_complete_ex: new state IDLE, or nothing changed *)
+Lemma response_complete_fr i hy c :
+  let r := tx_state_response_complete_ex cb g i hy c in
+  rs_nd (fst r) /\ rs_gD (snd r) = rs_gD c /\ rs_rdo (snd r) = rs_rdo c /\ (rs_S c -> rs_S (snd r)).
+Proof.
+  cbn zeta. unfold tx_state_response_complete_ex, run_hook.
+  set (first := if negb (t_response_progress (tx_get c i) =? c_HTP_RESPONSE_COMPLETE) then _ else (ST_OK, c)).
+  assert (H0 : rs_nd (fst first) /\ rs_geo (snd first) = rs_geo c).
+  { subst first. destruct (negb _); [|split; [split; discriminate|reflexivity]].
+    match goal with |- context [run_hook_ex cb ?a ?b ?x ?y ?z ?w] =>
+      pose proof (nd_run_hook_ex cb a b x y z w) as H1; pose proof (geo_run_hook_ex cb a b x y z w) as H2;
+      destruct (run_hook_ex cb a b x y z w) as [rc c1] end.
+    cbn [fst snd] in *.
+    assert (H3 : rs_geo c1 = rs_geo c).
+    { rewrite H2. destruct (negb _).
+      - destruct (process_body_fr cb i None 0 (tx_upd c i (fun t => t <| t_response_progress := c_HTP_RESPONSE_COMPLETE |>))) as [_ H4].
+        rewrite H4. apply geo_tx_upd.
+      - apply geo_tx_upd. }
+    destruct rc; try (split; assumption).
+    destruct (receiver_clear_fr cb c1) as [H4 H5]. split; [assumption|congruence]. }
+  destruct first as [rc c1]. cbn [fst snd] in H0. destruct H0 as [H1 H2].
+  apply geo_proj in H2. destruct H2 as (E1 & E2 & E3).
+  destruct rc; cbn [fst snd]; try (split4; [assumption|assumption|assumption|same_S]).
+  destruct (negb hy && _)%bool; cbn [fst snd]; [split4; [split; discriminate|fr|fr|same_S]|].
+  destruct (negb hy && _)%bool; cbn [fst snd]; [split4; [split; discriminate|fr|fr|same_S]|].
+  pose proof (tx_finalize_fr cb g i c1) as [F1 F2]. destruct (tx_finalize cb g i c1) as [rc2 c2]. cbn [fst snd] in F1, F2.
+  apply geo_proj in F2. destruct F2 as (G1 & G2 & G3).
+  destruct rc2; cbn [fst snd]; try (split4; [assumption|fr|fr|same_S]).
+  split4.
+  - split; discriminate.
+  - unfold rs_gD in *; cbn in *; congruence.
+  - unfold rs_rdo in *; cbn in *; congruence.
+  - intros _; unfold rs_S; cbn; split; intros; discriminate.
+Qed.
+End Ops.
+
+(* ---- what every state function guarantees ---- *)
+Definition rs_okres (c : connp) (r : st * connp) : Prop :=
+  rs_gD (snd r) = rs_gD c /\ (rs_S c -> rs_S (snd r)) /\ ((fst r = ST_DATA \/ fst r = ST_DATA_BUFFER) -> rs_consumed_all (snd r)).
+
+Lemma okres_trans c c1 r : rs_gD c1 = rs_gD c -> (rs_S c -> rs_S c1) -> rs_okres c1 r -> rs_okres c r.
+Proof. intros H1 H2 (A & B & C). split; [congruence|]. split; [auto|assumption]. Qed.
+Lemma okres_nd c r : rs_gD (snd r) = rs_gD c -> (rs_S c -> rs_S (snd r)) -> rs_nd (fst r) -> rs_okres c r.
+Proof. intros H1 H2 [N1 N2]. split; [assumption|]. split; [assumption|]. intros [E|E]; congruence. Qed.
+Lemma okres_geo_nd c r : rs_geo (snd r) = rs_geo c -> rs_nd (fst r) -> rs_okres c r.
+Proof.
+  intros H N. apply geo_proj in H. destruct H as (E1 & E2 & E3).
+  apply okres_nd; [assumption| |assumption]. intros; eapply S_of_gS; eauto.
+Qed.
+Lemma nd_ok : rs_nd ST_OK. Proof. split; discriminate. Qed.
+Lemma nd_error : rs_nd ST_ERROR. Proof. split; discriminate. Qed.
+#[local] Hint Resolve nd_ok nd_error : core.
+
+Section States.
+Variable cb : cb_oracle.
+Variable g : cfg.
+
+(* S is kept by anything that rs_keeps rs_gS *)
+Lemma S_keep a b : rs_gS a = rs_gS b -> rs_S b -> rs_S a. Proof. apply S_of_gS. Qed.
+
+Lemma gS_otx f c : rs_gS (rs_otx f c) = rs_gS c.
+Proof. pose proof (geo_otx f c) as H. apply geo_proj in H. tauto. Qed.
+Lemma gD_otx f c : rs_gD (rs_otx f c) = rs_gD c.
+Proof. pose proof (geo_otx f c) as H. apply geo_proj in H. tauto. Qed.
+Lemma rdo_otx f c : rs_rdo (rs_otx f c) = rs_rdo c.
+Proof. pose proof (geo_otx f c) as H. apply geo_proj in H. tauto. Qed.
+
+(* ---- RES_BODY_CHUNKED_DATA_END ---- *)
+Lemma chunked_data_end_ok fuel c : rs_okres c (rs_chunked_data_end_loop fuel c).
+Proof.
+  revert c. induction fuel as [|f IH]; intros c; cbn [rs_chunked_data_end_loop].
+  - apply okres_geo_nd; [reflexivity|auto].
+  - destruct (rs_next_byte c) as [c1|] eqn:En.
+    + destruct (next_some c c1 En) as [E1 E2].
+      set (c2 := rs_otx _ c1).
+      assert (F1 : rs_gD c2 = rs_gD c) by (subst c2; rewrite gD_otx; assumption).
+      assert (F2 : rs_gS c2 = rs_gS c) by (subst c2; rewrite gS_otx; assumption).
+      destruct (rs_nb_is c2 LF).
+      * apply okres_nd; cbn [fst snd]; auto. intros _. apply S_set_plain. plain.
+      * eapply okres_trans; [exact F1| intros; eapply S_keep; eauto | apply IH].
+    + split; [reflexivity|]. split; [auto|]. intros _. cbn [snd]. apply next_none; assumption.
+Qed.
+
+(* consuming n bytes, when n is all that is left of the chunk *)
+Lemma advance_all n c : (k_len (c_out c) - k_read (c_out c) <= n)%nat -> rs_consumed_all (rs_advance n c).
+Proof. unfold rs_consumed_all, rs_advance, rs_set_out. cbn. lia. Qed.
+
+Lemma btc_zero c left : left <> 0 -> rs_bytes_to_consume c left = 0%nat -> rs_consumed_all c.
+Proof.
+  unfold rs_bytes_to_consume, rs_consumed_all. intros Hl.
+  destruct (left <? 0) eqn:E1; [lia|]. destruct (left <=? _) eqn:E2; [|lia].
+  apply Z.ltb_ge in E1. intros H. assert (left = 0) by lia. contradiction.
+Qed.
+(* after consuming n = bytes_to_consume with something still owed, the chunk is exhausted *)
+Lemma btc_rest c left : left - Z.of_nat (rs_bytes_to_consume c left) <> 0 ->
+  (k_len (c_out c) - k_read (c_out c) <= rs_bytes_to_consume c left)%nat.
+Proof.
+  unfold rs_bytes_to_consume. destruct (left <? 0) eqn:E1; [lia|]. destruct (left <=? _) eqn:E2; [|lia].
+  apply Z.ltb_ge in E1. intros H. rewrite Z2Nat.id in H by lia. lia.
+Qed.
+Lemma btc_pos_rest c left : 0 < left -> left - Z.of_nat (rs_bytes_to_consume c left) <> 0 ->
+  0 < left - Z.of_nat (rs_bytes_to_consume c left).
+Proof.
+  unfold rs_bytes_to_consume. destruct (left <? 0) eqn:E1; [apply Z.ltb_lt in E1; lia|]. destruct (left <=? _) eqn:E2.
+  - intros H H2. rewrite Z2Nat.id in * by lia. lia.
+  - apply Z.leb_gt in E2. lia.
+Qed.
+
+(* ---- RES_BODY_CHUNKED_DATA ---- *)
+Lemma chunked_data_ok c : c_out_state c = RES_BODY_CHUNKED_DATA -> rs_S c -> rs_okres c (rs_RES_BODY_CHUNKED_DATA cb c).
+Proof.
+  intros Hs HS. destruct HS as [HS1 HS2]. specialize (HS1 Hs).
+  unfold rs_RES_BODY_CHUNKED_DATA.
+  set (n := rs_bytes_to_consume c (c_out_chunked_length c)).
+  destruct (n =? 0)%nat eqn:En.
+  - split; [reflexivity|]. split; [auto|]. intros _. cbn [snd]. apply Nat.eqb_eq in En.
+    eapply btc_zero; [|exact En]. lia.
+  - pose proof (body_slice_fr c n) as B. destruct (rs_body_slice c n) as [data c1]. cbn [snd] in B.
+    pose proof (process_body_fr2 cb data n c1) as [P1 P2]. destruct (rs_process_body cb data n c1) as [rc c2]. cbn [fst snd] in *.
+    assert (G : rs_geo c2 = rs_geo c) by congruence.
+    pose proof G as G'. apply geo_proj in G'. destruct G' as (E1 & E2 & E3).
+    destruct rc; try (apply okres_geo_nd; [exact G | assumption]).
+    set (c3 := rs_advance n c2).
+    assert (Hcl : c_out_chunked_length c2 = c_out_chunked_length c) by (unfold rs_gS in E2; congruence).
+    assert (Hst : c_out_state c2 = c_out_state c) by (unfold rs_gS in E2; congruence).
+    cbn. fold c3. rewrite Hcl.
+    destruct (c_out_chunked_length c - Z.of_nat n =? 0) eqn:Ez.
+    + apply okres_nd; cbn [fst snd]; auto.
+      intros _. apply S_set_plain. plain.
+    + apply Z.eqb_neq in Ez. split; [cbn [snd]; unfold rs_gD in *; cbn; congruence|]. split.
+      * intros _. unfold rs_S. cbn. rewrite Hst, Hs. split; [intros _|discriminate].
+        subst n. apply btc_pos_rest; assumption.
+      * intros _. cbn [snd]. subst n.
+        assert (A : rs_consumed_all c3).
+        { subst c3. apply advance_all. unfold rs_gD, rs_rdo in *. inversion E1. rewrite E3.
+          replace (k_len (c_out c2)) with (k_len (c_out c)) by congruence. apply btc_rest; assumption. }
+        unfold rs_consumed_all in *. cbn. exact A.
+Qed.
+
+(* ---- RES_BODY_IDENTITY_CL_KNOWN ---- *)
+Lemma process_body_final_ok c c0 : rs_gD c0 = rs_gD c -> rs_okres c (rs_process_body cb None 0 (rs_set_state RES_FINALIZE c0)).
+Proof.
+  intros E. pose proof (process_body_fr2 cb None 0 (rs_set_state RES_FINALIZE c0)) as [P1 P2].
+  apply geo_proj in P2. destruct P2 as (E1 & E2 & E3).
+  apply okres_nd; [rewrite E1; exact E | | exact P1].
+  intros _. eapply S_keep; [exact E2|]. apply S_set_plain. plain.
+Qed.
+
+Lemma cl_known_ok c : c_out_state c = RES_BODY_IDENTITY_CL_KNOWN -> rs_S c -> rs_okres c (rs_RES_BODY_IDENTITY_CL_KNOWN cb c).
+Proof.
+  intros Hs HS. destruct HS as [HS1 HS2]. specialize (HS2 Hs).
+  unfold rs_RES_BODY_IDENTITY_CL_KNOWN.
+  set (n := rs_bytes_to_consume c (c_out_body_data_left c)).
+  destruct (rs_closed c); [apply process_body_final_ok; reflexivity|].
+  destruct (n =? 0)%nat eqn:En.
+  - split; [reflexivity|]. split; [auto|]. intros _. cbn [snd]. apply Nat.eqb_eq in En.
+    eapply btc_zero; [|exact En]. assumption.
+  - pose proof (body_slice_fr c n) as B. destruct (rs_body_slice c n) as [data c1]. cbn [snd] in B.
+    pose proof (process_body_fr2 cb data n c1) as [P1 P2]. destruct (rs_process_body cb data n c1) as [rc c2]. cbn [fst snd] in *.
+    assert (G : rs_geo c2 = rs_geo c) by congruence.
+    pose proof G as G'. apply geo_proj in G'. destruct G' as (E1 & E2 & E3).
+    destruct rc; try (apply okres_geo_nd; [exact G | assumption]).
+    set (c3 := rs_advance n c2).
+    assert (Hcl : c_out_body_data_left c2 = c_out_body_data_left c) by (unfold rs_gS in E2; congruence).
+    assert (Hst : c_out_state c2 = c_out_state c) by (unfold rs_gS in E2; congruence).
+    cbn. fold c3. rewrite Hcl.
+    destruct (c_out_body_data_left c - Z.of_nat n =? 0) eqn:Ez.
+    + apply process_body_final_ok. unfold rs_gD in *; cbn; congruence.
+    + apply Z.eqb_neq in Ez. split; [cbn [snd]; unfold rs_gD in *; cbn; congruence|]. split.
+      * intros _. unfold rs_S. cbn. rewrite Hst, Hs. split; [discriminate|intros _]. exact Ez.
+      * intros _. cbn [snd]. subst n.
+        assert (A : rs_consumed_all c3).
+        { subst c3. apply advance_all. unfold rs_gD, rs_rdo in *. inversion E1. rewrite E3.
+          replace (k_len (c_out c2)) with (k_len (c_out c)) by congruence. apply btc_rest; assumption. }
+        unfold rs_consumed_all in *. cbn. exact A.
+Qed.
+
+(* ---- RES_BODY_IDENTITY_STREAM_CLOSE ---- *)
+Lemma stream_close_ok c : rs_okres c (rs_RES_BODY_IDENTITY_STREAM_CLOSE cb c).
+Proof.
+  unfold rs_RES_BODY_IDENTITY_STREAM_CLOSE.
+  set (n := (k_len (c_out c) - k_read (c_out c))%nat).
+  set (c0 := if (k_len (c_out c) <? k_read (c_out c))%nat then rs_fault c else c).
+  assert (G0 : rs_geo c0 = rs_geo c) by (subst c0; destruct (_ <? _)%nat; reflexivity).
+  destruct (n =? 0)%nat eqn:En.
+  - apply Nat.eqb_eq in En. pose proof G0 as G'. apply geo_proj in G'. destruct G' as (E1 & E2 & E3).
+    destruct (rs_closed c0).
+    + apply okres_nd; cbn [fst snd]; auto. intros _. apply S_set_plain. plain.
+    + split; [exact E1|]. split; [intros; eapply S_keep; eauto|]. intros _. cbn [snd].
+      eapply all_of; [exact E1|exact E3|]. unfold rs_consumed_all. subst n. lia.
+  - apply Nat.eqb_neq in En.
+    pose proof (body_slice_fr c0 n) as B. destruct (rs_body_slice c0 n) as [data c1]. cbn [snd] in B.
+    pose proof (process_body_fr2 cb data n c1) as [P1 P2]. destruct (rs_process_body cb data n c1) as [rc c2]. cbn [fst snd] in *.
+    assert (G : rs_geo c2 = rs_geo c) by congruence.
+    pose proof G as G'. apply geo_proj in G'. destruct G' as (E1 & E2 & E3).
+    destruct rc; try (apply okres_geo_nd; [exact G | assumption]).
+    destruct (rs_closed (rs_advance n c2)).
+    + apply okres_nd; cbn [fst snd]; auto. intros _. apply S_set_plain. plain.
+    + split; [cbn [snd]; unfold rs_gD in *; cbn; congruence|]. split; [intros; eapply S_keep; [|eassumption]; fr|].
+      intros _. cbn [snd]. apply advance_all. unfold rs_gD, rs_rdo in *. inversion E1. subst n. lia.
+Qed.
+
+Lemma S_plain x : rs_plain_state (c_out_state x) -> rs_S x.
+Proof. intros [H1 H2]. split; intros; congruence. Qed.
+Lemma state_otx f c : c_out_state (rs_otx f c) = c_out_state c.
+Proof. pose proof (gS_otx f c) as H. unfold rs_gS in H. congruence. Qed.
+Lemma gD_consolidate c : rs_gD (snd (rs_consolidate g c)) = rs_gD c /\ rs_gS (snd (rs_consolidate g c)) = rs_gS c /\ rs_rdo (snd (rs_consolidate g c)) = rs_rdo c.
+Proof. apply geo_proj. apply geo_consolidate. Qed.
+
+(* ---- RES_BODY_CHUNKED_LENGTH ---- *)
+Lemma chunked_length_ok fuel c : rs_plain_state (c_out_state c) -> rs_okres c (rs_chunked_length_loop g fuel c).
+Proof.
+  revert c. induction fuel as [|f IH]; intros c Hp; cbn [rs_chunked_length_loop].
+  - apply okres_geo_nd; [reflexivity|auto].
+  - destruct (rs_copy_byte c) as [c1|] eqn:Ec.
+    2:{ split; [reflexivity|]. split; [auto|]. intros _. apply copy_none; assumption. }
+    destruct (copy_some c c1 Ec) as [E1 E2].
+    assert (Hp1 : rs_plain_state (c_out_state c1)) by (unfold rs_gS in E2; replace (c_out_state c1) with (c_out_state c) by congruence; assumption).
+    destruct (_ || _)%bool.
+    2:{ eapply okres_trans; [exact E1 | intros; apply S_plain; assumption | apply IH; assumption]. }
+    destruct (gD_consolidate c1) as (C1 & C2 & C3). destruct (rs_consolidate g c1) as [[data|] c2]; cbn [snd] in *.
+    2:{ apply okres_nd; cbn [fst snd]; [congruence| |auto]. intros _. apply S_plain. unfold rs_gS in C2. replace (c_out_state c2) with (c_out_state c1) by congruence. assumption. }
+    set (c3 := rs_otx _ c2).
+    assert (D3 : rs_gD c3 = rs_gD c) by (subst c3; rewrite gD_otx; congruence).
+    assert (S3 : c_out_state c3 = c_out_state c) by (subst c3; rewrite state_otx; unfold rs_gS in *; congruence).
+    set (cl := fst (parse_chunked_length (rs_dbytes data))).
+    cbv zeta.
+    destruct (cl =? -1004).
+    { eapply okres_trans; [| |apply IH].
+      - unfold rs_gD in *; cbn; exact D3.
+      - intros _. apply S_plain. cbn. rewrite S3. assumption.
+      - cbn. rewrite S3. assumption. }
+    destruct (cl <? 0) eqn:Eneg.
+    { apply okres_nd; cbn [fst snd]; [ | | auto].
+      - rewrite gD_otx. unfold rs_gD in *; cbn; exact D3.
+      - intros _. apply S_plain. rewrite state_otx. cbn. plain. }
+    destruct (0 <? cl) eqn:Epos.
+    { apply okres_nd; cbn [fst snd]; [ | | auto].
+      - unfold rs_gD in *; cbn; exact D3.
+      - intros _. unfold rs_S. cbn. split; [intros _; apply Z.ltb_lt; assumption | discriminate]. }
+    apply okres_nd; cbn [fst snd]; [ | | auto].
+    + rewrite gD_otx. unfold rs_gD in *; cbn; exact D3.
+    + intros _. apply S_plain. rewrite state_otx. cbn. plain.
+Qed.
+
+(* ---- RES_FINALIZE ---- *)
+Lemma copy_read c c1 : rs_copy_byte c = Some c1 -> rs_rdo c1 = S (rs_rdo c) /\ (rs_rdo c < k_len (c_out c))%nat.
+Proof.
+  unfold rs_copy_byte. destruct (rs_has_byte c) eqn:Hb; [|discriminate]. intros H; inversion H; subst c1.
+  destruct (geo_load_next_but_read c) as (_ & _ & E3). unfold rs_rdo in *. cbn. rewrite E3. split; [reflexivity|].
+  unfold rs_has_byte in Hb. apply Nat.ltb_lt in Hb. exact Hb.
+Qed.
+
+Lemma finalize_scan_ok fuel c b c' :
+  (k_len (c_out c) - k_read (c_out c) < fuel)%nat -> rs_finalize_scan fuel c = (b, c') ->
+  rs_gD c' = rs_gD c /\ rs_gS c' = rs_gS c /\ (b = false -> rs_consumed_all c').
+Proof.
+  revert c. induction fuel as [|f IH]; intros c Hf; [lia|]. cbn [rs_finalize_scan].
+  destruct (rs_copy_byte c) as [c1|] eqn:Ec.
+  - destruct (copy_some c c1 Ec) as [E1 E2]. destruct (copy_read c c1 Ec) as [E3 E4].
+    destruct (rs_nb_is c1 LF).
+    + intros H; inversion H; subst. split; [assumption|]. split; [assumption|]. discriminate.
+    + intros H. apply IH in H.
+      * destruct H as (A & B & C). split; [congruence|]. split; [congruence|assumption].
+      * unfold rs_gD, rs_rdo in *. inversion E1. lia.
+  - intros H; inversion H; subst. split; [reflexivity|]. split; [reflexivity|]. intros _. apply copy_none; assumption.
+Qed.
+
+Lemma response_complete_ok c : rs_okres c (rs_response_complete cb g c).
+Proof.
+  unfold rs_response_complete. destruct (c_out_tx c).
+  - pose proof (response_complete_fr cb g n false c) as H. cbn zeta in H. destruct H as (N & A & B & C).
+    apply okres_nd; assumption.
+  - apply okres_geo_nd; [reflexivity|auto].
+Qed.
+
+Lemma finalize_tail_ok c : rs_okres c (rs_finalize_tail cb g c).
+Proof.
+  unfold rs_finalize_tail.
+  destruct (gD_consolidate c) as (C1 & C2 & C3). destruct (rs_consolidate g c) as [[data|] c2]; cbn [snd] in *.
+  2:{ apply okres_nd; cbn [fst snd]; [assumption| same_S |auto]. }
+  destruct (_ =? 0)%nat.
+  { eapply okres_trans; [exact C1 | same_S | apply response_complete_ok]. }
+  destruct (rs_treat_response_line_as_body data).
+  { pose proof (process_body_fr2 cb data (length (rs_dbytes data)) c2) as [P1 P2].
+    destruct (rs_process_body cb data (length (rs_dbytes data)) c2) as [rc c3]. cbn [fst snd] in *.
+    apply geo_proj in P2. destruct P2 as (F1 & F2 & F3).
+    apply okres_nd; cbn [fst snd]; [ | | assumption].
+    - unfold rs_gD in *; cbn; congruence.
+    - intros; eapply S_keep; [|eassumption]. unfold rs_gS in *; cbn; congruence. }
+  eapply okres_trans; [| |apply response_complete_ok].
+  - unfold rs_gD, rs_set_out in *; cbn. brk; cbn; exact C1.
+  - intros; eapply S_keep; [|eassumption]. unfold rs_gS, rs_set_out in *; cbn. brk; cbn; exact C2.
+Qed.
+
+Lemma finalize_ok c : rs_D c -> rs_okres c (rs_RES_FINALIZE cb g c).
+Proof.
+  intros HD. unfold rs_RES_FINALIZE.
+  destruct (negb (rs_closed c)); [|apply finalize_tail_ok].
+  destruct (peek_fr c) as (P1 & P2 & P3).
+  assert (HD1 : rs_D (rs_peek_next c)) by (eapply D_of_gD; eauto).
+  destruct (rs_nb (rs_peek_next c)) eqn:Enb.
+  2:{ eapply okres_trans; [exact P1 | same_S | apply response_complete_ok]. }
+  destruct (_ || _)%bool.
+  2:{ eapply okres_trans; [exact P1 | same_S | apply finalize_tail_ok]. }
+  destruct (rs_finalize_scan _ _) as [b c2] eqn:Es.
+  apply finalize_scan_ok in Es; [|unfold rs_bytes_fuel; lia]. destruct Es as (A & B & C).
+  destruct b.
+  - eapply okres_trans; [| |apply finalize_tail_ok]; [congruence | same_S].
+  - split; [cbn [snd]; congruence|]. split; [same_S|]. intros _. cbn [snd]. apply C. reflexivity.
+Qed.
+
+(* rs_S only looks at (state, chunked_length, body_data_left) *)
+Definition rs_Sg (x : res_state * Z * Z) : Prop :=
+  let '(s, ch, l) := x in (s = RES_BODY_CHUNKED_DATA -> 0 < ch) /\ (s = RES_BODY_IDENTITY_CL_KNOWN -> l <> 0).
+Arguments rs_Sg : simpl never.
+Lemma S_Sg c : rs_S c <-> rs_Sg (rs_gS c).
+Proof. unfold rs_S, rs_Sg, rs_gS. tauto. Qed.
+Lemma Sg_plain s ch l : rs_plain_state s -> rs_Sg (s, ch, l).
+Proof. intros [H1 H2]. unfold rs_Sg. split; intros; congruence. Qed.
+
+Lemma geo_peek c : rs_geo (rs_peek_next c) = rs_geo c.
+Proof. unfold rs_peek_next, rs_load_next. brk; reflexivity. Qed.
+Lemma gS_of_geo a b : rs_geo a = rs_geo b -> rs_gS a = rs_gS b.
+Proof. intros H. apply geo_proj in H. tauto. Qed.
+Lemma gD_of_geo a b : rs_geo a = rs_geo b -> rs_gD a = rs_gD b.
+Proof. intros H. apply geo_proj in H. tauto. Qed.
+
+(* ---- RES_IDLE ---- *)
+Lemma idle_ok c : rs_plain_state (c_out_state c) -> rs_okres c (rs_RES_IDLE cb g c).
+Proof.
+  intros Hp. unfold rs_RES_IDLE.
+  destruct (negb (rs_has_byte c)) eqn:Hb.
+  { split; [reflexivity|]. split; [auto|]. intros _. cbn [snd]. apply has_byte_false. destruct (rs_has_byte c); [discriminate|reflexivity]. }
+  set (p := if match nth_error (c_txs c) (c_out_next_tx_index c) with Some (Some _) => true | _ => false end then _ else _).
+  assert (Hp2 : rs_gD (snd p) = rs_gD c /\ c_out_state (snd p) = c_out_state c).
+  { subst p. destruct (match nth_error (c_txs c) (c_out_next_tx_index c) with Some (Some _) => true | _ => false end).
+    - cbn [snd]. split; reflexivity.
+    - set (c1 := c <| c_out_tx := None |>).
+      set (c2 := if req_state_eqb (c_in_state c1) REQ_FINALIZE then _ else c1).
+      assert (G2 : rs_geo c2 = rs_geo c).
+      { subst c2. destruct (req_state_eqb _ _); [|reflexivity]. destruct (c_in_tx c1); [|reflexivity]. rewrite geo_req_complete. reflexivity. }
+      pose proof (geo_tx_create g c2) as G3. destruct (connp_tx_create g c2) as [[id|] c3]; cbn [snd] in *.
+      + match goal with |- context [tx_upd ?x id ?f] => pose proof (geo_tx_upd x id f) as G4 end.
+        apply geo_proj in G4. destruct G4 as (A & B & _). apply geo_proj in G3. destruct G3 as (A3 & B3 & _).
+        apply geo_proj in G2. destruct G2 as (A2 & B2 & _).
+        split.
+        * unfold rs_gD in *; cbn in *; congruence.
+        * unfold rs_gS in *; cbn in *; congruence.
+      + apply geo_proj in G3. destruct G3 as (A3 & B3 & _). apply geo_proj in G2. destruct G2 as (A2 & B2 & _).
+        split; [congruence | unfold rs_gS in *; congruence]. }
+  destruct p as [ok c1]. cbn [snd] in Hp2. destruct Hp2 as [Q1 Q2].
+  assert (HS1 : rs_S c1) by (apply S_plain; rewrite Q2; assumption).
+  destruct ok.
+  - pose proof (response_start_fr cb (out_txi c1) c1) as H. cbn zeta in H. destruct H as (N & A & B & C).
+    apply okres_nd; [congruence | auto | assumption].
+  - apply okres_nd; cbn [fst snd]; [assumption | auto | auto].
+Qed.
+
+(* rs_otx only touches the transaction table and the fault bit *)
+Lemma c_out_tx_put c i t : c_out (tx_put c i t) = c_out c.
+Proof. unfold tx_put. brk; reflexivity. Qed.
+Lemma c_out_tx_upd c i f : c_out (tx_upd c i f) = c_out c.
+Proof. unfold tx_upd. brk; try apply c_out_tx_put; reflexivity. Qed.
+Lemma c_out_otx f c : c_out (rs_otx f c) = c_out c.
+Proof. unfold rs_otx. brk; try apply c_out_tx_upd; reflexivity. Qed.
+Lemma chunked_otx f c : c_out_chunked_length (rs_otx f c) = c_out_chunked_length c.
+Proof. pose proof (gS_otx f c) as H. unfold rs_gS in H. congruence. Qed.
+Lemma left_otx f c : c_out_body_data_left (rs_otx f c) = c_out_body_data_left c.
+Proof. pose proof (gS_otx f c) as H. unfold rs_gS in H. congruence. Qed.
+Hint Rewrite c_out_otx state_otx chunked_otx left_otx : rsdb.
+
+Ltac red_proj :=
+  repeat (progress (cbn [fst snd];
+                    unfold rs_clear_buffer, rs_set_state, rs_set_out, rs_set_header, rs_fault, rs_flag_invalid_folding,
+                           rs_process_header, rs_flush_header, rs_unblock_request, rs_gD, rs_gS, rs_rdo in *;
+                    cbn; autorewrite with rsdb)).
+(* leaf (rc, X) of a state function, X built from record updates and rs_otx over a connp whose rs_gD / rs_gS are known *)
+Ltac leaf_plain := apply okres_nd; [ red_proj; try congruence | intros _; apply S_Sg; red_proj; try (apply Sg_plain; plain) | auto ].
+
+(* ---- RES_LINE ---- *)
+Lemma line_complete_ok c : rs_okres c (rs_line_complete cb g c).
+Proof.
+  unfold rs_line_complete.
+  destruct (gD_consolidate c) as (C1 & C2 & C3). destruct (rs_consolidate g c) as [[data|] c2]; cbn [snd] in *.
+  2:{ apply okres_nd; cbn [fst snd]; [assumption| same_S |auto]. }
+  destruct (rs_is_line_ignorable _ _).
+  { destruct (rs_closed c2).
+    - leaf_plain.
+    - apply okres_nd; [red_proj; congruence | intros HS; apply (proj1 (S_Sg _)) in HS; apply S_Sg; red_proj; congruence | auto]. }
+  destruct (rs_chomp (rs_dbytes data)) as [dc chomp_result].
+  destruct (rs_treat_response_line_as_body _).
+  - destruct (_ && _)%bool.
+    { apply okres_nd; [red_proj; brk; red_proj; congruence | intros HS; apply (proj1 (S_Sg _)) in HS; apply S_Sg; red_proj; brk; red_proj; congruence | auto]. }
+    match goal with |- context [rs_process_body cb ?d ?n ?x] =>
+      pose proof (process_body_fr2 cb d n x) as [P1 P2]; destruct (rs_process_body cb d n x) as [rc c3] end.
+    cbn [fst snd] in *. apply geo_proj in P2. destruct P2 as (F1 & F2 & F3).
+    assert (F1' : rs_gD c3 = rs_gD c) by (rewrite F1; red_proj; brk; red_proj; congruence).
+    assert (F2' : rs_gS c3 = rs_gS c) by (rewrite F2; red_proj; brk; red_proj; congruence).
+    destruct rc; try (apply okres_nd; [red_proj; congruence | intros HS; apply (proj1 (S_Sg _)) in HS; apply S_Sg; red_proj; congruence | assumption]).
+    destruct (_ <=? _)%nat.
+    + leaf_plain.
+    + apply okres_nd; [red_proj; congruence | intros HS; apply (proj1 (S_Sg _)) in HS; apply S_Sg; red_proj; congruence | auto].
+  - match goal with |- context [tx_state_response_line cb ?i ?x] =>
+      pose proof (response_line_fr cb i x) as [P1 P2]; destruct (tx_state_response_line cb i x) as [rc c3] end.
+    cbn [fst snd] in *. apply geo_proj in P2. destruct P2 as (F1 & F2 & F3).
+    assert (F1' : rs_gD c3 = rs_gD c) by (rewrite F1; red_proj; brk; red_proj; congruence).
+    assert (F2' : rs_gS c3 = rs_gS c) by (rewrite F2; red_proj; brk; red_proj; congruence).
+    destruct rc; try (apply okres_nd; [red_proj; congruence | intros HS; apply (proj1 (S_Sg _)) in HS; apply S_Sg; red_proj; congruence | assumption]).
+    leaf_plain.
+Qed.
+
+Ltac leaf_same := apply okres_nd; [ red_proj; try congruence
+                                  | intros HS; apply (proj1 (S_Sg _)) in HS; apply S_Sg; red_proj; congruence | auto ].
+
+Lemma line_loop_ok fuel c : rs_D c -> rs_okres c (rs_line_loop cb g fuel c).
+Proof.
+  revert c. induction fuel as [|f IH]; intros c HD; cbn [rs_line_loop].
+  - apply okres_geo_nd; [reflexivity|auto].
+  - set (step := if negb (rs_closed c) then rs_copy_byte c else Some c).
+    destruct step as [c1|] eqn:Es.
+    2:{ subst step. destruct (negb (rs_closed c)); [|discriminate].
+        split; [reflexivity|]. split; [auto|]. intros _. cbn [snd]. apply copy_none; assumption. }
+    assert (E : rs_gD c1 = rs_gD c /\ rs_gS c1 = rs_gS c).
+    { subst step. destruct (negb (rs_closed c)); [apply copy_some; assumption | inversion Es; split; reflexivity]. }
+    destruct E as [E1 E2].
+    assert (HD1 : rs_D c1) by (eapply D_of_gD; eauto).
+    destruct (rs_nb_is c1 CR).
+    + destruct (peek_fr c1) as (P1 & P2 & P3).
+      assert (HD2 : rs_D (rs_peek_next c1)) by (eapply D_of_gD; eauto).
+      destruct (rs_nb (rs_peek_next c1)) eqn:Enb.
+      * destruct (n =? LF)%N.
+        -- eapply okres_trans; [| |apply IH; assumption]; [congruence | same_S].
+        -- set (c3 := rs_set_out _ (rs_peek_next c1)).
+           assert (G3 : rs_gD c3 = rs_gD c /\ rs_gS c3 = rs_gS c) by (subst c3; split; red_proj; congruence).
+           destruct G3 as [G31 G32].
+           destruct (_ || _)%bool.
+           ++ eapply okres_trans; [exact G31 | same_S | apply line_complete_ok].
+           ++ eapply okres_trans; [exact G31 | same_S | apply IH; eapply D_of_gD; eauto].
+      * split; [cbn [snd]; congruence|]. split; [same_S|]. intros _. cbn [snd]. apply peek_none; assumption.
+    + destruct (_ || _)%bool.
+      * eapply okres_trans; [exact E1 | same_S | apply line_complete_ok].
+      * eapply okres_trans; [exact E1 | same_S | apply IH; assumption].
+Qed.
+
+(* ---- RES_HEADERS ---- *)
+Lemma trailer_end_ok c : rs_okres c (rs_trailer_end cb c).
+Proof.
+  unfold rs_trailer_end, run_hook.
+  pose proof (receiver_clear_fr cb c) as [P1 P2]. destruct (res_receiver_finalize_clear cb c) as [rc c1]. cbn [fst snd] in *.
+  destruct rc; try (apply okres_geo_nd; assumption).
+  match goal with |- context [run_hook_ex cb ?a ?b ?x ?y ?z ?w] =>
+    pose proof (nd_run_hook_ex cb a b x y z w) as H1; pose proof (geo_run_hook_ex cb a b x y z w) as H2;
+    destruct (run_hook_ex cb a b x y z w) as [rc2 c2] end.
+  cbn [fst snd] in *. assert (G : rs_geo c2 = rs_geo c) by congruence.
+  destruct rc2; try (apply okres_geo_nd; assumption).
+  apply geo_proj in G. destruct G as (A & B & C). leaf_plain.
+Qed.
+
+Lemma geo_process_header l c : rs_geo (rs_process_header l c) = rs_geo c.
+Proof. apply geo_otx. Qed.
+Lemma geo_set_header h c : rs_geo (rs_set_header h c) = rs_geo c.
+Proof. reflexivity. Qed.
+Lemma geo_flush_header c : rs_geo (rs_flush_header c) = rs_geo c.
+Proof. unfold rs_flush_header. destruct (k_header (c_out c)); [|reflexivity]. transitivity (rs_geo (rs_process_header b c)); [reflexivity|apply geo_process_header]. Qed.
+Lemma geo_flag_folding c : rs_geo (rs_flag_invalid_folding c) = rs_geo c.
+Proof. apply geo_otx. Qed.
+
+Lemma headers_line_ok d c :
+  match rs_headers_line cb g d c with
+  | (Some r, _) => rs_okres c r
+  | (None, c') => rs_gD c' = rs_gD c /\ rs_gS c' = rs_gS c
+  end.
+Proof.
+  unfold rs_headers_line.
+  set (c0 := if rs_has_byte c then match rs_cur_byte c (k_read (c_out c)) with Some _ => c | None => rs_fault c end else c).
+  assert (G0 : rs_geo c0 = rs_geo c) by (subst c0; brk; reflexivity).
+  destruct (rs_is_line_terminator _ _ _).
+  - set (c1 := rs_clear_buffer (rs_flush_header c0)).
+    assert (G1 : rs_geo c1 = rs_geo c) by (subst c1; rewrite geo_clear_buffer, geo_flush_header; assumption).
+    clearbody c1. pose proof G1 as G1'. apply geo_proj in G1'. destruct G1' as (A & B & C).
+    destruct (_ =? _).
+    + leaf_plain.
+    + eapply okres_trans; [exact A | same_S | apply trailer_end_ok].
+  - cbv zeta.
+    match goal with |- context [rs_clear_buffer ?X] => assert (GX : rs_geo X = rs_geo c) end.
+    { brk; rewrite ?geo_set_header, ?geo_process_header, ?geo_flag_folding, ?geo_peek, ?geo_flush_header; try assumption.
+      all: try (match goal with |- rs_geo (rs_set_header ?h ?x) = _ => transitivity (rs_geo x); [reflexivity|] end;
+                rewrite ?geo_set_header, ?geo_process_header, ?geo_flag_folding, ?geo_peek, ?geo_flush_header; assumption). }
+    cbn [fst snd]. apply geo_proj in GX. destruct GX as (A & B & C). split; [exact A | exact B].
+Qed.
+
+Lemma copy_or_fault c : let c' := match rs_copy_byte c with Some c1 => c1 | None => rs_fault c end in rs_gD c' = rs_gD c /\ rs_gS c' = rs_gS c.
+Proof. cbn zeta. destruct (rs_copy_byte c) eqn:E; [apply copy_some; assumption | split; reflexivity]. Qed.
+Lemma consume_succ_fr c : let c' := rs_set_out (fun k => k <| k_consume ::= S |>) c in rs_gD c' = rs_gD c /\ rs_gS c' = rs_gS c.
+Proof. split; reflexivity. Qed.
+
+Lemma headers_loop_ok fuel lf c : rs_D c -> rs_okres c (rs_headers_loop cb g fuel lf c).
+Proof.
+  revert lf c. induction fuel as [|f IH]; intros lf c HD; cbn [rs_headers_loop].
+  - apply okres_geo_nd; [reflexivity|auto].
+  - destruct (rs_closed c); [apply trailer_end_ok|].
+    destruct (rs_copy_byte c) as [c1|] eqn:Ec.
+    2:{ split; [reflexivity|]. split; [auto|]. intros _. cbn [snd]. apply copy_none; assumption. }
+    destruct (copy_some c c1 Ec) as [E1 E2].
+    assert (HD1 : rs_D c1) by (eapply D_of_gD; eauto).
+    destruct (_ && _)%bool.
+    { eapply okres_trans; [exact E1 | same_S | apply IH; assumption]. }
+    match goal with |- context [let '(scan, c) := ?E in _] => set (sc := E) end.
+    assert (HSC : rs_gD (snd sc) = rs_gD c1 /\ rs_gS (snd sc) = rs_gS c1 /\ (fst sc = 0%nat -> rs_consumed_all (snd sc))).
+    { subst sc. destruct (rs_nb_is c1 CR).
+      - destruct (peek_fr c1) as (P1 & P2 & P3).
+        destruct (rs_nb (rs_peek_next c1)) eqn:Enb.
+        + destruct (n =? LF)%N.
+          * cbn [fst snd]. split; [|split; [|discriminate]].
+            -- destruct lf; [|destruct (copy_or_fault (rs_peek_next c1)) as [A B]; congruence].
+               set (x1 := match rs_copy_byte (rs_peek_next c1) with Some c => c | None => rs_fault (rs_peek_next c1) end).
+               assert (X1 : rs_gD x1 = rs_gD c1) by (destruct (copy_or_fault (rs_peek_next c1)) as [A B]; subst x1; congruence).
+               clearbody x1. destruct (peek_fr x1) as (Q1 & Q2 & Q3).
+               destruct (rs_nb_is (rs_peek_next x1) CR); [|congruence].
+               set (x2 := match rs_copy_byte (rs_peek_next x1) with Some c => c | None => rs_fault (rs_peek_next x1) end).
+               assert (X2 : rs_gD x2 = rs_gD c1) by (destruct (copy_or_fault (rs_peek_next x1)) as [A B]; subst x2; congruence).
+               clearbody x2.
+               set (x3 := rs_set_out _ x2). assert (X3 : rs_gD x3 = rs_gD c1) by (subst x3; red_proj; congruence). clearbody x3.
+               destruct (peek_fr x3) as (R1 & R2 & R3).
+               destruct (rs_nb_is (rs_peek_next x3) LF); [|congruence].
+               destruct (copy_or_fault (rs_peek_next x3)) as [A B]. red_proj. congruence.
+            -- destruct lf; [|destruct (copy_or_fault (rs_peek_next c1)) as [A B]; congruence].
+               set (x1 := match rs_copy_byte (rs_peek_next c1) with Some c => c | None => rs_fault (rs_peek_next c1) end).
+               assert (X1 : rs_gS x1 = rs_gS c1) by (destruct (copy_or_fault (rs_peek_next c1)) as [A B]; subst x1; congruence).
+               clearbody x1. destruct (peek_fr x1) as (Q1 & Q2 & Q3).
+               destruct (rs_nb_is (rs_peek_next x1) CR); [|congruence].
+               set (x2 := match rs_copy_byte (rs_peek_next x1) with Some c => c | None => rs_fault (rs_peek_next x1) end).
+               assert (X2 : rs_gS x2 = rs_gS c1) by (destruct (copy_or_fault (rs_peek_next x1)) as [A B]; subst x2; congruence).
+               clearbody x2.
+               set (x3 := rs_set_out _ x2). assert (X3 : rs_gS x3 = rs_gS c1) by (subst x3; red_proj; congruence). clearbody x3.
+               destruct (peek_fr x3) as (R1 & R2 & R3).
+               destruct (rs_nb_is (rs_peek_next x3) LF); [|congruence].
+               destruct (copy_or_fault (rs_peek_next x3)) as [A B]. red_proj. congruence.
+          * destruct (n =? CR)%N; cbn [fst snd]; (split; [assumption|split; [assumption|discriminate]]).
+        + cbn [fst snd]. split; [assumption|]. split; [assumption|]. intros _. apply peek_none; assumption.
+      - destruct (peek_fr c1) as (P1 & P2 & P3).
+        destruct (rs_nb_is (rs_peek_next c1) CR); cbn [fst snd].
+        + destruct (copy_or_fault (rs_peek_next c1)) as [A B]. split; [congruence|]. split; [congruence|discriminate].
+        + split; [assumption|]. split; [assumption|discriminate]. }
+    destruct sc as [scan c2]. cbn [fst snd] in HSC. destruct HSC as (H1 & H2 & H3).
+    assert (HD2 : rs_D c2) by (eapply D_of_gD; eauto).
+    destruct scan as [|[|scan]].
+    + split; [cbn [snd]; congruence|]. split; [same_S|]. intros _. cbn [snd]. apply H3. reflexivity.
+    + eapply okres_trans; [| |apply IH; assumption]; [congruence | same_S].
+    + destruct (gD_consolidate c2) as (C1 & C2 & C3). destruct (rs_consolidate g c2) as [[data|] c3]; cbn [snd] in *.
+      2:{ apply okres_nd; cbn [fst snd]; [congruence | same_S | auto]. }
+      assert (HD3 : rs_D c3) by (eapply D_of_gD; eauto).
+      destruct (_ && _)%bool.
+      { eapply okres_trans; [| |apply IH; assumption]; [congruence | same_S]. }
+      pose proof (headers_line_ok (rs_dbytes data) c3) as HL.
+      destruct (rs_headers_line cb g (rs_dbytes data) c3) as [[r|] c4].
+      * eapply okres_trans; [| |exact HL]; [congruence | same_S].
+      * destruct HL as [L1 L2]. eapply okres_trans; [| |apply IH]; [congruence | same_S | eapply D_of_gD; eauto].
+Qed.
+
+(* ---- RES_BODY_DETERMINE ---- *)
+Lemma response_headers_leaf c x : rs_gD x = rs_gD c -> rs_Sg (rs_gS x) -> rs_okres c (rs_response_headers cb x).
+Proof.
+  intros A B. pose proof (response_headers_fr2 cb x) as [P1 P2]. apply geo_proj in P2. destruct P2 as (F1 & F2 & F3).
+  apply okres_nd; [congruence | intros _; apply S_Sg; rewrite F2; exact B | exact P1].
+Qed.
+
+Lemma body_determine_ok c : rs_plain_state (c_out_state c) -> rs_okres c (rs_RES_BODY_DETERMINE cb c).
+Proof.
+  intros Hp. unfold rs_RES_BODY_DETERMINE.
+  set (t := rs_tx c). set (sn := t_response_status_number t).
+  destruct (_ && _ && _)%bool.
+  { apply response_headers_leaf; [reflexivity | red_proj; apply Sg_plain; plain]. }
+  set (c3 := if t_request_method_number t =? c_HTP_M_CONNECT then _ else c).
+  assert (G3 : rs_gD c3 = rs_gD c /\ rs_gS c3 = rs_gS c).
+  { subst c3. brk; split; red_proj; brk; reflexivity. }
+  destruct G3 as [G31 G32]. clearbody c3.
+  set (cl := rs_hdr_get_c (t_response_headers t) rs_str_content_length).
+  set (te := rs_hdr_get_c (t_response_headers t) rs_str_transfer_encoding).
+  cbv zeta.
+  destruct (_ && _ && _)%bool.
+  { apply response_headers_leaf.
+    - red_proj. brk; red_proj; congruence.
+    - red_proj. brk; red_proj; apply Sg_plain; plain. }
+  destruct (_ && _ && _)%bool.
+  { leaf_plain. }
+  match goal with |- context [rs_hdr_get_c (t_request_headers t) rs_str_expect] => idtac end.
+  set (c4 := if (400 <=? sn) && _ && _ && _ then _ else c3).
+  assert (G4 : rs_gD c4 = rs_gD c /\ rs_gS c4 = rs_gS c).
+  { subst c4. brk; split; red_proj; congruence. }
+  destruct G4 as [G41 G42]. clearbody c4.
+  set (c5 := if t_request_method_number t =? c_HTP_M_HEAD then _ else _).
+  assert (G5 : rs_gD c5 = rs_gD c /\ c_out_chunked_length c5 = c_out_chunked_length c /\ c_out_body_data_left c5 = c_out_body_data_left c /\
+               (c_out_state c5 = c_out_state c \/ c_out_state c5 = RES_FINALIZE)).
+  { subst c5. brk; red_proj; (split; [congruence|]); (split; [congruence|]); (split; [congruence|]); auto; left; congruence. }
+  destruct G5 as (G51 & G52 & G53 & G54). clearbody c5.
+  assert (HS5 : rs_Sg (rs_gS c5)).
+  { unfold rs_gS. apply Sg_plain. destruct G54 as [E|E]; rewrite E; [assumption|plain]. }
+  set (p := if negb (res_state_eqb (c_out_state c5) RES_FINALIZE) then _ else (ST_OK, c5)).
+  assert (HP : rs_nd (fst p) /\ rs_gD (snd p) = rs_gD c /\ rs_Sg (rs_gS (snd p))).
+  { subst p. destruct (negb _); [|cbn [fst snd]; auto].
+    set (ct := rs_hdr_get_c (t_response_headers t) rs_str_content_type).
+    set (c6 := match ct with Some h => _ | None => c5 end).
+    assert (G6 : rs_gD c6 = rs_gD c /\ rs_gS c6 = rs_gS c5) by (subst c6; destruct ct; split; red_proj; congruence).
+    destruct G6 as [G61 G62]. clearbody c6. cbv zeta.
+    destruct (match te with Some h => _ | None => false end).
+    { cbn [fst snd]. split; [auto|]. split; red_proj; [congruence | apply Sg_plain; plain]. }
+    destruct cl as [h|].
+    - destruct (_ <? 0).
+      + cbn [fst snd]. split; [auto|]. split; red_proj; [congruence|].
+        unfold rs_gS in G62. inversion G62 as [[Q1 Q2 Q3]]. rewrite Q1, Q2, Q3. exact HS5.
+      + destruct (negb (parse_content_length (h_value h) =? 0)) eqn:Ev; cbn [fst snd].
+        * split; [auto|]. split; red_proj; [congruence|]. unfold rs_Sg. split; [discriminate|]. intros _.
+          destruct (parse_content_length (h_value h) =? 0) eqn:E0; [discriminate|]. apply Z.eqb_neq in E0. exact E0.
+        * split; [auto|]. split; red_proj; [congruence | apply Sg_plain; plain].
+    - destruct (match ct with Some h => _ | None => false end); cbn [fst snd].
+      + split; [auto|]. split; [congruence|]. rewrite G62. exact HS5.
+      + split; [auto|]. split; red_proj; [congruence | apply Sg_plain; plain]. }
+  destruct p as [rc c7]. cbn [fst snd] in HP. destruct HP as (N & A & B).
+  destruct rc; try (apply okres_nd; cbn [fst snd]; [assumption | intros _; apply S_Sg; assumption | assumption]).
+  apply response_headers_leaf; assumption.
+Qed.
+
+(* ---- dispatch ---- *)
+Lemma state_fn_ok c : rs_D c -> rs_S c -> rs_okres c (rs_state_fn cb g (c_out_state c) c).
+Proof.
+  intros HD HS. destruct (c_out_state c) eqn:Hs; cbn [rs_state_fn].
+  - apply idle_ok. rewrite Hs. plain.
+  - apply line_loop_ok; assumption.
+  - apply headers_loop_ok; assumption.
+  - apply body_determine_ok. rewrite Hs. plain.
+  - apply cl_known_ok; assumption.
+  - apply stream_close_ok.
+  - apply chunked_length_ok. rewrite Hs. plain.
+  - apply chunked_data_ok; assumption.
+  - apply chunked_data_end_ok.
+  - apply finalize_ok; assumption.
+Qed.
+
+Lemma res_state_eqb_eq a b : res_state_eqb a b = true -> a = b.
+Proof. destruct a, b; cbn; intros H; try discriminate; reflexivity. Qed.
+
+Lemma handle_state_change_fr c :
+  rs_nd (fst (rs_handle_state_change cb c)) /\ rs_geo (snd (rs_handle_state_change cb c)) = rs_geo c.
+Proof.
+  unfold rs_handle_state_change.
+  destruct (match c_out_state_previous c with Some p => _ | None => false end); [split; [auto|reflexivity]|].
+  set (p := if res_state_eqb (c_out_state c) RES_HEADERS then _ else (ST_OK, c)).
+  assert (HP : rs_nd (fst p) /\ rs_geo (snd p) = rs_geo c).
+  { subst p. destruct (res_state_eqb _ _); [|split; [auto|reflexivity]].
+    set (c1 := match c_out_tx c with None => rs_fault c | Some _ => c end).
+    assert (G1 : rs_geo c1 = rs_geo c) by (subst c1; destruct (c_out_tx c); reflexivity).
+    destruct (_ =? _).
+    - destruct (receiver_set_fr cb H_RESPONSE_HEADER_DATA c1) as [A B]. split; [assumption|congruence].
+    - destruct (_ =? _).
+      + destruct (receiver_set_fr cb H_RESPONSE_TRAILER_DATA c1) as [A B]. split; [assumption|congruence].
+      + split; [auto|assumption]. }
+  destruct p as [rc c2]. cbn [fst snd] in HP. destruct HP as [N G].
+  destruct rc; cbn [fst snd]; split; try assumption.
+Qed.
+
+(* ---- the exit paths of the loop ---- *)
+Lemma exit_fr rc c : rs_gD (fst (rs_res_exit cb g rc c)) = rs_gD c /\ rs_gS (fst (rs_res_exit cb g rc c)) = rs_gS c /\ rs_rdo (fst (rs_res_exit cb g rc c)) = rs_rdo c.
+Proof.
+  unfold rs_res_exit.
+  destruct rc; try (split; [|split]; reflexivity).
+  - (* ST_DATA *) destruct (receiver_send_fr cb false c) as [_ G]. apply geo_proj in G. cbn [fst]. exact G.
+  - destruct (_ <=? _)%nat; cbn [fst]; (split; [|split]; reflexivity).
+  - (* ST_DATA_BUFFER *)
+    destruct (receiver_send_fr cb false c) as [_ G].
+    pose proof (geo_res_buffer g (snd (res_receiver_send_data cb false c))) as G2.
+    destruct (rs_res_buffer g (snd (res_receiver_send_data cb false c))) as [brc c2]. cbn [snd] in G2.
+    assert (G3 : rs_geo c2 = rs_geo c) by congruence. apply geo_proj in G3.
+    destruct brc; cbn [fst]; exact G3.
+Qed.
+
+Lemma exit_data rc c :
+  ((rc = ST_DATA \/ rc = ST_DATA_BUFFER) -> rs_consumed_all c) ->
+  snd (rs_res_exit cb g rc c) = c_HTP_STREAM_DATA -> rs_consumed_all (fst (rs_res_exit cb g rc c)).
+Proof.
+  intros H Hz. destruct (exit_fr rc c) as (A & _ & C).
+  eapply all_of; [exact A | exact C |].
+  assert (NE : c_HTP_STREAM_ERROR <> c_HTP_STREAM_DATA) by (vm_compute; discriminate).
+  assert (NS : c_HTP_STREAM_STOP <> c_HTP_STREAM_DATA) by (vm_compute; discriminate).
+  assert (NO : c_HTP_STREAM_DATA_OTHER <> c_HTP_STREAM_DATA) by (vm_compute; discriminate).
+  unfold rs_res_exit in Hz.
+  destruct rc; cbn [snd] in Hz; try contradiction; try (apply H; auto; fail).
+  destruct (k_len (c_out c) <=? k_read (c_out c))%nat eqn:E; cbn [snd] in Hz; [|contradiction].
+  apply Nat.leb_le in E. exact E.
+Qed.
+
+Lemma res_loop_ok fuel gap c :
+  (gap = false -> rs_D c) -> rs_S c ->
+  rs_S (fst (rs_res_loop cb g fuel gap c)) /\
+  (snd (rs_res_loop cb g fuel gap c) = c_HTP_STREAM_DATA -> rs_consumed_all (fst (rs_res_loop cb g fuel gap c))).
+Proof.
+  revert c. induction fuel as [|f IH]; intros c HD HS; cbn [rs_res_loop].
+  - cbn [fst snd]. split; [eapply S_keep; [|exact HS]; reflexivity | intros Hz; vm_compute in Hz; discriminate].
+  - set (s := c_out_state c).
+    set (gap_ok := (res_state_eqb s RES_BODY_IDENTITY_CL_KNOWN || res_state_eqb s RES_BODY_IDENTITY_STREAM_CLOSE)%bool).
+    destruct (gap && negb gap_ok && negb (res_state_eqb s RES_FINALIZE))%bool.
+    { cbn [fst snd]. split; [assumption | intros Hz; vm_compute in Hz; discriminate]. }
+    set (p := if (gap && negb gap_ok)%bool then rs_response_complete cb g c else rs_state_fn cb g s c).
+    assert (HP : rs_okres c p).
+    { subst p. destruct gap.
+      - cbn [andb]. destruct gap_ok eqn:Eg; cbn [negb].
+        + subst gap_ok. apply Bool.orb_true_iff in Eg. destruct Eg as [Eg|Eg]; apply res_state_eqb_eq in Eg; rewrite Eg; cbn [rs_state_fn].
+          * apply cl_known_ok; [exact Eg | assumption].
+          * apply stream_close_ok.
+        + apply response_complete_ok.
+      - cbn [andb]. apply state_fn_ok; auto. }
+    destruct p as [rc c1]. destruct HP as (A & B & C). cbn [fst snd] in A, B, C.
+    assert (HS1 : rs_S c1) by auto.
+    assert (HD1 : gap = false -> rs_D c1) by (intros Hg; eapply D_of_gD; [exact A | auto]).
+    destruct rc.
+    + destruct (c_out_status c1 =? c_HTP_STREAM_TUNNEL).
+      { cbn [fst snd]. split; [assumption | intros Hz; vm_compute in Hz; discriminate]. }
+      destruct (handle_state_change_fr c1) as [N G]. destruct (rs_handle_state_change cb c1) as [rc2 c2]. cbn [fst snd] in N, G.
+      apply geo_proj in G. destruct G as (G1 & G2 & G3).
+      assert (HS2 : rs_S c2) by (eapply S_keep; eauto).
+      destruct rc2; try (destruct (exit_fr ST_OK c2) as (X1 & X2 & X3)).
+      * apply IH; [intros Hg; eapply D_of_gD; [exact G1 | auto] | assumption].
+      * destruct (exit_fr ST_ERROR c2) as (Y1 & Y2 & Y3). split; [eapply S_keep; eauto | apply exit_data; intros [E|E]; discriminate].
+      * destruct (exit_fr ST_DECLINED c2) as (Y1 & Y2 & Y3). split; [eapply S_keep; eauto | apply exit_data; intros [E|E]; discriminate].
+      * destruct N as [N1 N2]. congruence.
+      * destruct (exit_fr ST_DATA_OTHER c2) as (Y1 & Y2 & Y3). split; [eapply S_keep; eauto | apply exit_data; intros [E|E]; discriminate].
+      * destruct (exit_fr ST_STOP c2) as (Y1 & Y2 & Y3). split; [eapply S_keep; eauto | apply exit_data; intros [E|E]; discriminate].
+      * destruct N as [N1 N2]. congruence.
+    + destruct (exit_fr ST_ERROR c1) as (Y1 & Y2 & Y3). split; [eapply S_keep; eauto | apply exit_data; intros [E|E]; discriminate].
+    + destruct (exit_fr ST_DECLINED c1) as (Y1 & Y2 & Y3). split; [eapply S_keep; eauto | apply exit_data; intros [E|E]; discriminate].
+    + destruct (exit_fr ST_DATA c1) as (Y1 & Y2 & Y3). split; [eapply S_keep; eauto | apply exit_data; intros _; apply C; auto].
+    + destruct (exit_fr ST_DATA_OTHER c1) as (Y1 & Y2 & Y3). split; [eapply S_keep; eauto | apply exit_data; intros [E|E]; discriminate].
+    + destruct (exit_fr ST_STOP c1) as (Y1 & Y2 & Y3). split; [eapply S_keep; eauto | apply exit_data; intros [E|E]; discriminate].
+    + destruct (exit_fr ST_DATA_BUFFER c1) as (Y1 & Y2 & Y3). split; [eapply S_keep; eauto | apply exit_data; intros _; apply C; auto].
+Qed.
+End States.
+
+(* ---- the theorems ---- *)
+Definition rs_chunk_ok (data : option bytes) (len : nat) : Prop :=
+  match data with Some d => length d = len | None => True end.
+
+Lemma res_data_core cb g data len c :
+  rs_chunk_ok data len -> rs_S c ->
+  rs_S (fst (connp_res_data cb g data len c)) /\
+  (snd (connp_res_data cb g data len c) = c_HTP_STREAM_DATA -> rs_consumed_all (fst (connp_res_data cb g data len c))).
+Proof.
+  intros Hc HS. unfold connp_res_data.
+  destruct (_ =? _); [split; [assumption | intros Hz; vm_compute in Hz; discriminate]|].
+  destruct (_ =? _); [split; [assumption | intros Hz; vm_compute in Hz; discriminate]|].
+  destruct (match c_out_tx c with None => _ | Some _ => false end).
+  { cbn [fst snd]. split; [eapply S_keep; [|exact HS]; reflexivity | intros Hz; vm_compute in Hz; discriminate]. }
+  destruct (_ && _)%bool; [split; [assumption | intros Hz; vm_compute in Hz; discriminate]|].
+  set (c0 := _ <| c_out_data_counter ::= _ |>).
+  assert (HS0 : rs_S c0) by (eapply S_keep; [|exact HS]; reflexivity).
+  assert (HD0 : match data with None => (0 <? len)%nat | Some _ => false end = false -> rs_D c0).
+  { subst c0. unfold rs_D. cbn. destruct data as [d|]; cbn.
+    - intros _. unfold rs_chunk_ok in Hc. lia.
+    - intros H. destruct len; [reflexivity|discriminate]. }
+  clearbody c0.
+  destruct (c_out_status c0 =? _); [cbn [fst snd]; split; [assumption | intros Hz; vm_compute in Hz; discriminate]|].
+  apply res_loop_ok; assumption.
+Qed.
+
+(* the side conditions of the two counted body states are an invariant of the data entry point ... *)
+Theorem res_data_keeps_S cb g data len c :
+  rs_chunk_ok data len -> rs_S c -> rs_S (fst (connp_res_data cb g data len c)).
+Proof. intros Hc HS. apply res_data_core; assumption. Qed.
+Lemma rs_S_new : rs_S connp_new.
+Proof. unfold rs_S. cbn. split; discriminate. Qed.
+
+(* ... and under it HTP_STREAM_DATA means that every byte of the chunk has been consumed *)
+Theorem res_data_data_means_all cb g data len c :
+  rs_chunk_ok data len -> rs_S c ->
+  snd (connp_res_data cb g data len c) = c_HTP_STREAM_DATA ->
+  (k_len (c_out (fst (connp_res_data cb g data len c))) <= k_read (c_out (fst (connp_res_data cb g data len c))))%nat.
+Proof. intros Hc HS Hz. apply res_data_core; assumption. Qed.
